@@ -255,6 +255,7 @@ pub struct GenOpts {
     pub max_scale_pow: u32,    // row/col scalings 10^[-k,k]
     pub allow_zero_cone: bool,
     pub force_nonneg: bool,    // always include at least one nonnegative cone
+    pub allow_soc1: bool,      // singleton second-order cones (consolidated into nonnegative cones)
 }
 
 impl GenOpts {
@@ -269,6 +270,7 @@ impl GenOpts {
             max_scale_pow: 3,
             allow_zero_cone: true,
             force_nonneg: false,
+            allow_soc1: false,
         }
     }
     pub fn thorough() -> Self {
@@ -365,7 +367,14 @@ fn gen_cones(cs: &mut ChoiceStream, o: &GenOpts) -> Vec<ConeSpec> {
                     ConeSpec::Nonneg(1 + cs.choose("dim", md) as usize)
                 }
             }
-            2 => ConeSpec::Soc(2 + cs.choose("dim", md - 1) as usize),
+            // dimensions on both sides of the sparse-expansion threshold (4)
+            2 => {
+                if o.allow_soc1 && cs.prob("soc1", 1, 3) {
+                    ConeSpec::Soc(1)
+                } else {
+                    ConeSpec::Soc([2usize, 3, 4, 5, 6, 9][cs.choose("socdim", if md > 4 { 6 } else { 5 }) as usize])
+                }
+            }
             3 => ConeSpec::Exp,
             4 => ConeSpec::Pow([0.5, 0.25, 0.75, 0.3, 0.9][cs.choose("alpha", 5) as usize]),
             _ => {
@@ -626,6 +635,17 @@ pub fn gen_settings(cs: &mut ChoiceStream, verbose: bool) -> DefaultSettings<f64
     }
     if cs.prob("s.dreg", 1, 6) {
         s.dynamic_regularization_enable = false;
+    }
+    match cs.choose("s.dregv", 6) {
+        1 => {
+            s.dynamic_regularization_eps = 1e-10;
+            s.dynamic_regularization_delta = 1e-5;
+        }
+        2 => {
+            s.dynamic_regularization_eps = 1e-7;
+            s.dynamic_regularization_delta = 1e-4;
+        }
+        _ => {}
     }
     if cs.prob("s.ir", 1, 6) {
         s.iterative_refinement_enable = false;
